@@ -17,7 +17,7 @@ fn assumptions() -> Vec<String> {
     ]
 }
 
-fn golden_monitor_binding(ctx: &Ctx) -> u64 {
+fn golden_monitor_binding(ctx: &Ctx, golden_findings: &mut Vec<Viol>) -> u64 {
     // the repository's own decode vectors through decoder + monitor: no alarm, and the
     // delivered payloads / discarded counts equal the tests' expectations
     let vecs: Vec<(&str, Vec<&str>)> = vec![
@@ -47,13 +47,22 @@ fn golden_monitor_binding(ctx: &Ctx) -> u64 {
     for (h, exp) in vecs {
         let s = unhex(h).unwrap();
         let r = crate::mon::mon_run(BufKind::Vec, &s, &[]);
-        if !r.findings.is_empty() {
-            crate::report::machinery(&format!("golden binding: monitor raises {:?} on repository vector {}", r.findings, h));
+        // Monitor alarms on these vectors are reported as ordinary findings of the run (the
+        // implementation may have been changed); only a disagreement with the repository's own
+        // expectations - which its test suite would show as well - is a machinery condition.
+        for (class, what) in &r.findings {
+            golden_findings.push(Viol {
+                class: class.to_string(),
+                key: format!("golden:{}", h.replace(' ', "")),
+                what: format!("repository test vector {}: {}", h, what),
+                case: J::obj().set("engine", "e1").set("mode", "bytes").set("buf", "Vec").set("bytes", h.replace(' ', "")),
+                size: s.len(),
+            });
         }
-        if !exp.is_empty() {
+        if !exp.is_empty() && r.findings.is_empty() {
             let got: Vec<String> = r.events.iter().map(|e| e.short()).collect();
             if got != exp.iter().map(|s| s.to_string()).collect::<Vec<_>>() {
-                crate::report::machinery(&format!("golden binding: vector {} gives {:?}, repository expects {:?}", h, got, exp));
+                crate::report::machinery(&format!("golden binding: vector {} gives {:?}, repository expects {:?} (does the repository's own test suite still pass?)", h, got, exp));
             }
         }
         n += 1;
@@ -86,10 +95,21 @@ struct Acc {
     runs: Vec<J>,
     exhaustive: bool,
     samples: Vec<J>,
+    golden: Vec<Viol>,
 }
 impl Acc {
     fn new() -> Acc {
-        Acc { tally: Tally::new(), states: 0, transitions: 0, counts: Counts::default(), other: Counts::default(), runs: vec![], exhaustive: true, samples: vec![] }
+        Acc { tally: Tally::new(), states: 0, transitions: 0, counts: Counts::default(), other: Counts::default(), runs: vec![], exhaustive: true, samples: vec![], golden: vec![] }
+    }
+    /// monitor alarms on the repository's own vectors count like any other finding of this property
+    fn absorb_golden(&mut self, report: &[&str]) {
+        for v in std::mem::take(&mut self.golden) {
+            if report.iter().any(|p| v.class.starts_with(p)) {
+                self.tally.add(v);
+            } else {
+                self.other.inc(&v.class);
+            }
+        }
     }
     fn add(&mut self, name: &str, cfg: &Cfg, ex: Explored) {
         self.states += ex.states;
@@ -135,8 +155,11 @@ const RULE: &str = "breadth-first over operation strings (6 byte classes, state-
 // ------------------------------------------------------------------ C02
 pub fn run_c02(tier: Tier) -> ! {
     let ctx = Ctx::new("C02", tier);
-    let golden = golden_monitor_binding(&ctx);
+    let mut gf = vec![];
+    let golden = golden_monitor_binding(&ctx, &mut gf);
     let mut acc = Acc::new();
+    acc.golden = gf;
+    acc.absorb_golden(&["C02"]);
     let d = std::env::var("VERIF_DEPTH").ok().and_then(|s| s.parse().ok()).unwrap_or(tier.pick(6usize, 7));
     for (kind, depth) in [(BufKind::Vec, d), (BufKind::Arr(3), d.saturating_sub(2)), (BufKind::Arr(0), d.saturating_sub(2))] {
         let cfg = base_cfg("C02", kind, depth, vec!["C02"], &ctx);
@@ -154,10 +177,13 @@ fn run_sub() -> Vec<Sym> {
 }
 pub fn run_c05_c17(prop: &'static str, tier: Tier) -> ! {
     let ctx = Ctx::new(prop, tier);
-    let golden = golden_monitor_binding(&ctx);
+    let mut gf = vec![];
+    let golden = golden_monitor_binding(&ctx, &mut gf);
     // a counter that panics on overflow in this (checked) build is a counter that is not exact (C17)
     let report: Vec<&'static str> = if prop == "C17" { vec!["C17", "C05 M-total: panic"] } else { vec![prop] };
     let mut acc = Acc::new();
+    acc.golden = gf;
+    acc.absorb_golden(&report);
     let wrap_phase = std::env::var("VERIF_PHASE").as_deref() == Ok("wrap");
     if !wrap_phase {
         let dv = tier.pick(6, 8);
@@ -179,15 +205,22 @@ pub fn run_c05_c17(prop: &'static str, tier: Tier) -> ! {
     }
     // long runs: exactly one RUN symbol anywhere in a short path (no merging)
     let mut run_cfgs = vec![
-        RunCfg { kind: BufKind::Vec, sub: run_sub(), runs: runs(), max_len: tier.pick(4, 5), max_runs: 1, report: report.clone() },
-        RunCfg { kind: BufKind::Arr(2), sub: run_sub(), runs: runs(), max_len: tier.pick(3, 4), max_runs: 1, report: report.clone() },
+        RunCfg { kind: BufKind::Vec, sub: run_sub(), runs: runs(), max_len: tier.pick(4, 5), max_runs: 1, report: report.clone(), root_len: 0 },
+        RunCfg { kind: BufKind::Arr(2), sub: run_sub(), runs: runs(), max_len: tier.pick(3, 4), max_runs: 1, report: report.clone(), root_len: 0 },
     ];
     if tier == Tier::Thorough {
         let two: Vec<Sym> = vec![Sym::Run(0x55, 65535), Sym::Run(0x55, 65536), Sym::Run(0x1b, 65535), Sym::Run(0x1b, 65536)];
-        run_cfgs.push(RunCfg { kind: BufKind::Vec, sub: run_sub(), runs: two, max_len: 4, max_runs: 2, report: report.clone() });
+        run_cfgs.push(RunCfg { kind: BufKind::Vec, sub: run_sub(), runs: two, max_len: 4, max_runs: 2, report: report.clone(), root_len: 0 });
     }
     for rc in &run_cfgs {
-        let (tally, counts, other, transitions, with_run) = explore_runs(rc);
+        let (mut tally, mut counts, mut other, mut transitions, mut with_run) = explore_runs(rc, &[]);
+        // the same paths started inside a frame
+        let r2 = explore_runs(rc, &[Sym::Esc, Sym::Som]);
+        tally.merge(r2.0);
+        counts.merge(&r2.1);
+        other.merge(&r2.2);
+        transitions += r2.3;
+        with_run += r2.4;
         ctx.log(&format!("{} RUN paths (len <= {}, <= {} RUN): {} transitions, {} after a RUN, violations {}", rc.kind.name(), rc.max_len, rc.max_runs, transitions, with_run, tally.total()));
         acc.states += transitions; // no merging: every path prefix is its own state
         acc.transitions += transitions;
@@ -500,9 +533,12 @@ pub fn replay_c08b(case: &J) -> Vec<Viol> {
 
 pub fn run_c08(tier: Tier) -> ! {
     let ctx = Ctx::new("C08", tier);
-    let golden = golden_monitor_binding(&ctx);
+    let mut gf = vec![];
+    let golden = golden_monitor_binding(&ctx, &mut gf);
     let mut acc = Acc::new();
+    acc.golden = gf;
     let report = vec!["C08", "C01 M-complete"];
+    acc.absorb_golden(&report);
     // (a) all noise, all idle histories, by state: idle-only exploration over the plain bytes
     let idle_roots: Vec<Vec<Sym>> = vec![
         vec![],
@@ -723,8 +759,11 @@ fn c14_viol(kind: BufKind, path: &[Sym], cont: &[Sym], adapt_lhs: bool, d: Strin
 
 pub fn run_c14(tier: Tier) -> ! {
     let ctx = Ctx::new("C14", tier);
-    let golden = golden_monitor_binding(&ctx);
+    let mut gf = vec![];
+    let golden = golden_monitor_binding(&ctx, &mut gf);
     let mut acc = Acc::new();
+    acc.golden = gf;
+    acc.absorb_golden(&["C14"]);
     let dv = tier.pick(6, 8);
     let df = tier.pick(5, 6);
     let dcont = tier.pick(2, 3);
